@@ -155,6 +155,17 @@ def check_case(case, ctx):
         err = np.abs(fsd - fd)[far]
         ctx.check(np.all(err <= 1e-9 * (np.abs(fd[far] - case["baseline"])) + 8 * EPS * abs(case["baseline"])),
                   "translation", desc, f"shift {s:.3e}: max err {err.max():.3e} of range {frange:.3e}")
+    # the same array object re-used after an in-place shift (callers keep and update their abscissa buffers):
+    # must equal the evaluation of a fresh array with the same values
+    if s:
+        buf = x.copy()
+        md.model(make_params(md, case), buf)
+        buf += s
+        f_buf = md.model(make_params(md, case, cp=cp + s), buf)
+        f_new = md.model(make_params(md, case, cp=cp + s), buf.copy())
+        ctx.check(np.array_equal(f_buf, f_new), "array-reuse-differs", desc,
+                  f"model(params, buf) after an in-place shift of buf differs from model(params, buf.copy()); "
+                  f"max diff {np.max(np.abs(f_buf - f_new)):.3e} of range {frange:.3e}")
     # baseline additivity
     fb = md.model(make_params(md, case, baseline=case["baseline"] + case["dbase"]), x)
     err = np.abs(fb - (f + case["dbase"]))
